@@ -18,7 +18,7 @@ BOUNDS = ("One call from an arbitrary pre-state; on every path where the call ra
           "feed, power, tool/coolant/halt status and modes, tool number, remembered parameters, "
           "target temperatures, units, plane, resolution) is unchanged. Cell grid: 99 call shapes "
           "x bounds table {none, all seven properties set} x machine state {idle, tool+coolant "
-          "running} x {G90, G91, G91 with a pause pending} (quick: the last two for the idle machine only) x how the pre-state is reached {installed directly, through public calls from a fresh builder (a true history)}. Solver over: arguments (reals, NaN, +-inf), integer arguments, pre-state "
+          "running, coolant only} x {G90, G91, G91 with a pause pending} (quick: the last two for the idle machine only) x how the pre-state is reached {installed directly, through public calls from a fresh builder (a true history)}. Solver over: arguments (reals, NaN, +-inf), integer arguments, pre-state "
           "feed/power/x-coordinate, and the feed-rate, tool-power and temperature ranges "
           "(any min<max; the three temperature ranges are shifted copies of one symbolic range so "
           "that they differ); axes box fixed to [0,10]^3, tool-number range to [1,9].")
